@@ -148,6 +148,11 @@ class AList:
             return Builtin("alist.extend", ext)
         if name == "copy":
             return Builtin("alist.copy", lambda it, a, k: AList(self.parts))
+        if not hasattr(list, name):
+            from .interp import PyRaise
+            from .values import ExcValue
+
+            raise PyRaise(ExcValue("AttributeError", (f"'list' object has no attribute {name!r}",), ("Exception",)))
         raise Unsupported(f"list method {name} on an abstract list")
 
     def pyvc_binop(self, interp, op, other, reflected):
@@ -283,6 +288,11 @@ class ADict:
                 return e[1]
 
             return Builtin("adict.get", get)
+        if not hasattr(dict, name):
+            from .interp import PyRaise
+            from .values import ExcValue
+
+            raise PyRaise(ExcValue("AttributeError", (f"'dict' object has no attribute {name!r}",), ("Exception",)))
         raise Unsupported(f"dict method {name} on an abstract dict")
 
     def pyvc_iter(self, interp):
